@@ -31,6 +31,10 @@ import (
 
 const zone = "c04.test."
 
+// fakeECSParents are names from ecscache.FakeECSFQDNs (checked at run time);
+// the scripted upstream also answers for them and for their subdomains.
+var fakeECSParents = []string{"163.com.", "126.com.", "0cf.io."}
+
 var t0 = time.Now()
 
 // now is the monotonic time since process start.
@@ -266,15 +270,27 @@ type spec struct {
 	c                int
 	e                int
 	z, s, g, a       bool
+	f                int // scope echoed although the answer does not depend on the subnet (a "fake ECS" server)
 	r                int
 	hasN, hasX, hasM bool
 }
 
 func parseSpec(lname string) (sp spec, ok bool) {
-	if !strings.HasSuffix(lname, "."+zone) {
+	suffix := ""
+	for _, z := range append([]string{zone}, fakeECSParents...) {
+		if lname == z && z != zone {
+			// a listed fake-ECS name itself: scoped echo, location-independent answer
+			return spec{kind: "ans", t: 300, n: 300, x: 300, m: 300, c: 1, e: -1, f: 24}, true
+		}
+		if strings.HasSuffix(lname, "."+z) {
+			suffix = z
+			break
+		}
+	}
+	if suffix == "" {
 		return sp, false
 	}
-	labels := strings.Split(strings.TrimSuffix(lname, "."+zone), ".")
+	labels := strings.Split(strings.TrimSuffix(lname, "."+suffix), ".")
 	if len(labels) < 2 {
 		return sp, false
 	}
@@ -307,6 +323,8 @@ func parseSpec(lname string) (sp spec, ok bool) {
 			sp.e = int(v)
 		case 'z':
 			sp.z = true
+		case 'f':
+			sp.f = int(v)
 		case 's':
 			sp.s = true
 		case 'g':
@@ -418,6 +436,9 @@ func answer(req *dns.Msg) (resp *dns.Msg, fwd, dep string, do bool) {
 	if sp.e > 0 && hasSub && sub.Bits() > 0 {
 		scope = min(sp.e, sub.Bits())
 		dep = netip.PrefixFrom(sub.Addr(), scope).Masked().String()
+	}
+	if sp.f > 0 && sp.e <= 0 && hasSub && sub.Bits() > 0 {
+		scope = min(sp.f, sub.Bits())
 	}
 
 	cl := q.Qclass
@@ -542,7 +563,7 @@ func answer(req *dns.Msg) (resp *dns.Msg, fwd, dep string, do bool) {
 		if do {
 			o.SetDo()
 		}
-		if hasSub && (sp.e >= 0 || sp.z) {
+		if hasSub && (sp.e >= 0 || sp.z || sp.f > 0) {
 			fam := uint16(1)
 			if sub.Addr().Is6() {
 				fam = 2
